@@ -403,6 +403,12 @@ func (e *exec) do(s *Step) {
 		if len(sig) > 1 && mk.pub.VerifyBytes(msg, sig[:len(sig)-1]) {
 			e.viol("signature-binds-message", map[string]string{"what": "truncated"}, "a truncated signature verifies")
 		}
+		// ... nor does its tail verify for the message extended by its head (the boundary between message and signature is part of what was signed)
+		for _, k := range []int{1, len(sig) / 2, len(sig) - 1} {
+			if k > 0 && k < len(sig) && mk.pub.VerifyBytes(append(append([]byte{}, msg...), sig[:k]...), sig[k:]) {
+				e.viol("signature-binds-message", map[string]string{"what": "shifted-boundary"}, "after (m, s) verified, (m || s[:%d], s[%d:]) verifies too", k, k)
+			}
+		}
 		// messages related by hashing: a signature over H(m) is no signature over m, nor the other way round
 		hm := sha256.Sum256(msg)
 		if mk.pub.VerifyBytes(hm[:], sig) {
@@ -525,6 +531,32 @@ func (e *exec) do(s *Step) {
 	case "crash":
 		e.crashNext = true
 		e.crashK = s.K
+	case "power_loss":
+		// the machine loses power: whatever the keybase wrote without asking for it to be synced is gone; every
+		// operation it had reported as done must still be in effect afterwards
+		n := e.db.UndoLast(8)
+		e.kb = keys.NewKeybaseWithDB(e.db)
+		st.Fault("power_loss")
+		if n > 0 {
+			st.C("unsynced_writes_lost", int64(n))
+		}
+		e.log = append(e.log, fmt.Sprintf("power_loss undone=%d", n))
+		var ahs []string
+		for ah := range e.model {
+			ahs = append(ahs, ah)
+		}
+		sort.Strings(ahs)
+		for _, ah := range ahs {
+			k := e.model[ah]
+			msg := []byte("after-power-loss")
+			sig, _, err := e.kb.Sign(k.addr, k.pass, msg)
+			if err != nil || !k.pub.VerifyBytes(msg, sig) {
+				e.viol("lost-on-power-failure", nil, "after a power failure (%d unsynced write(s) lost) key %s is gone or no longer opens under the passphrase its last completed operation left it with: %v", n, ah[:8], err)
+			}
+		}
+		if list, err := e.kb.List(); err == nil && len(list) != len(e.model) {
+			e.viol("lost-on-power-failure", map[string]string{"what": "listing"}, "after a power failure the keybase lists %d keys, %d operations' worth of keys were reported stored or deleted", len(list), len(e.model))
+		}
 	case "multisig":
 		e.multisig(s)
 	}
